@@ -1258,8 +1258,12 @@ def _div_rem_slots(b):
     slots["conds"] = sorted(set(conds))
     calls = []
     for bb, t, fn in b.iter_calls():
-        if fn and fn["name"] in ("resize", "shl_assign", "shr_assign", "sub_assign", "set", "rev", "zeros", "clone", "significant_bits", "is_zero"):
+        if fn and fn["name"] in ("resize", "shl_assign", "shr_assign", "sub_assign", "set", "rev", "zeros", "clone", "significant_bits", "is_zero", "from"):
             e = _anon(b, b.e_call(t))
+            if e[1] == "from":
+                if tuple(e[3]) != (("param", "#1"),):
+                    continue
+                e = ("call", "clone", None, e[3], ())      # T::from(&T) of the dividend is a copy
             calls.append("%s(%s)" % (e[1], ", ".join(norm(show(a)) for a in e[3])))
     slots["calls"] = sorted(set(calls))
     return slots
@@ -1526,4 +1530,49 @@ def positional_indices(crate):
             res.append((b, "%s|POS" % b.key, "violation", "; ".join(dict.fromkeys(bad))))
         elif n:
             res.append((b, "%s|POS" % b.key, "pass", "%d enumerate-derived word indices, none behind a filtering adaptor" % n))
+    return res
+
+
+# --------------------------------------------------------------------------------------------
+# ZIPREF: zip over `by_ref()` iterators loses an element of the first one
+# --------------------------------------------------------------------------------------------
+CONSUMERS = ("next", "next_back", "all", "any", "for_each", "fold", "count", "last", "nth", "find", "position", "collect", "sum",
+             "map", "zip", "rev", "skip", "take", "chain", "enumerate", "cmp", "eq", "into_iter")
+
+
+def zip_by_ref(crate):
+    """`a.by_ref().zip(b.by_ref())` (also `(&mut a).zip(..)`): when the second iterator ends first, zip has already pulled
+    one more item from the first one and drops it. If the first iterator is used again afterwards (to inspect "the
+    rest"), that item is never seen - e.g. an equality that compares the common words and then checks that the rest of
+    the longer operand is zero accepts a non-zero word right above the shorter operand. Reported wherever the left
+    operand of such a zip is consumed again after the zip."""
+    res = []
+    for b in crate.bodies:
+        if b.self_family not in ("Bvf", "Bvd", "Bv") and not (b.self_ty or "").startswith("BitIterator"):
+            continue
+        zips = []
+        for bb, t, fn in b.iter_calls():
+            if fn and fn["name"] == "zip" and len(t["args"]) == 2:
+                a0 = b.e_operand(t["args"][0])
+                if is_call(a0, "by_ref") and a0[3] and a0[3][0][0] == "var":
+                    zips.append((bb, a0[3][0]))
+                elif a0[0] == "var" and b.local_ty(a0[2]).lstrip().startswith("&") and " mut " in b.local_ty(a0[2])[:24]:
+                    zips.append((bb, a0))
+        for zb, var in zips:
+            reused = []
+            for bb, t, fn in b.iter_calls():
+                if bb == zb or not fn or fn["name"] not in CONSUMERS or not t["args"]:
+                    continue
+                a0 = b.e_operand(t["args"][0])
+                inner = a0[3][0] if is_call(a0, "by_ref") and a0[3] else a0
+                if inner == var and b.block_dominates(zb, bb):
+                    reused.append(fn["name"])
+            key = "%s|zip(by_ref(%s), ..)" % (b.key, var[1])
+            if reused:
+                res.append((b, key, "violation",
+                            "`%s` is zipped through by_ref() and consumed again afterwards (%s): when the other side ends first, zip has "
+                            "already taken one item of `%s` and dropped it, so the word right above the shorter operand is never looked at"
+                            % (var[1], ", ".join(sorted(set(reused))), var[1])))
+            else:
+                res.append((b, key, "pass", "the by_ref() operand of zip is not used again"))
     return res
